@@ -52,7 +52,7 @@ def build(u):
     mh = u.src("proxy_agent_shared/src/misc_helpers.rs")
     el = u.src("proxy_agent_shared/src/telemetry/event_logger.rs")
     u.features += ["allocator_api", "sized_hierarchy", "pattern"]
-    for f in ("str_axioms.rs", "ext_types.rs", "std_string.rs", "http.rs"):
+    for f in ("str_axioms.rs", "ext_types.rs", "std_string.rs", "http.rs", "utf8.rs"):
         u.raw(open(os.path.join(COMMON, f)).read())
     u.raw(open(os.path.join(CON, "authorizer", "spec.rs")).read())
     u.raw_file("spec.rs")
@@ -179,10 +179,15 @@ def build(u):
                 u.take_fn(ps, "ProxyServer::empty_response", e9=status_e9(), contract="""
         ensures resp_status(r) == status_code, body_is_empty(resp_body(r)),  // @C01.empty_response.error_status_with_empty_body
 """)
-                u.take_fn(ps, "ProxyServer::log_connection_summary",
+                u.take_fn(ps, "ProxyServer::log_connection_summary", extra_attrs="#[verifier::loop_isolation(false)]",
                           ghost="Tracked(tr): Tracked<&mut HTrace>",
                           ghost_calls=[("add_one_failed_connection_summary", None, "Tracked(tr)"), ("add_one_connection_summary", None, "Tracked(tr)")],
-                          pre_body="broadcast use group_http_fmt, axiom_fmt_error;",
+                          pre_body="broadcast use group_http_fmt, axiom_fmt_error, axiom_to_string_string, axiom_to_string_status, group_utf8;",
+                          loops={0: """
+                invariant end <= 4096, utf8_len(error_details@) > 4096,
+                decreases end,
+"""},
+                          e9=[("c.clone()", None, CLAIMS_CLONE[0], "c", CLAIMS_CLONE[1], CLAIMS_CLONE[2], dict(name="vx_e9_claims_clone", body="c.clone()"))],
                           contract="""
         ensures
             final(http_connection_context).id == old(http_connection_context).id, final(http_connection_context).url == old(http_connection_context).url,
